@@ -71,8 +71,8 @@ class Ctx05(gates.GateCtx):
         self._arrs = out
         return out
 
-    def active_matcher(self, d):
-        base = super().active_matcher(d)
+    def active_matcher(self, d, db=None):
+        base = super().active_matcher(d, db)
 
         def m(core):
             r = base(core)
@@ -127,7 +127,7 @@ def rule_a(prog, chk):
                 chk.ob("C05a", "%s: loop on `%s` over all samples of %s (exempt: %s)" % (f.name, name, db, EXEMPT[(f.name, name)]),
                        f.loc(loop), True, key="C05a|%s|%s#%d" % (f.name, name, ordinal), nontrivial=False)
                 continue
-            passes = gc.pass_edges(gc.active_matcher(d))
+            passes = gc.pass_edges(gc.active_matcher(d, db))
             bad = []
             for c in cons:
                 w = gc.ungated_path(d, c, passes)
@@ -264,4 +264,14 @@ def main(tier):
     rule_a(prog, chk)
     rule_c(prog, chk)
     rule_b(prog, chk)
+    # C05d: undefined-value tests that leave a loop (every unit that spells such a test is analysed)
+    import c05_skip
+    if tier == "thorough":
+        dprog = prog
+    else:
+        extra = [u for u in c05_skip.units_with_pattern() if u not in units]
+        dprog = Program().load_dir(extract(extra, "C05d-" + tier))
+        dprog.load_dir(d)
+        chk.units += [u for u in dprog.units if u not in chk.units]
+    c05_skip.rule_d(dprog, chk, 4)
     return chk.finish()
